@@ -11,7 +11,7 @@ use proptest::prelude::*;
 pub struct C07;
 
 impl Prop for C07 {
-    type Case = EncCase;
+    type Case = PktCase;
     fn id(&self) -> &'static str {
         "C07"
     }
@@ -21,8 +21,12 @@ impl Prop for C07 {
     fn assumptions(&self) -> Vec<String> {
         vec!["bytes after the completion code of non-Success responses and the instance-id bits are not demanded".into()]
     }
-    fn strategy(&self, _tier: Tier) -> BoxedStrategy<EncCase> {
-        gen::enc_pair(gen::addr7().boxed(), gen::resp_call(false)).prop_map(|(env, call)| EncCase { env, call }).boxed()
+    fn strategy(&self, _tier: Tier) -> BoxedStrategy<PktCase> {
+        prop_oneof![
+            6 => gen::enc_pair(gen::addr7().boxed(), gen::resp_call(false)).prop_map(|(env, call)| PktCase::Enc(EncCase { env, call })),
+            1 => gen::resp_case().prop_map(PktCase::Resp),
+        ]
+        .boxed()
     }
     fn budget(&self, tier: Tier) -> u64 {
         match tier {
@@ -33,10 +37,10 @@ impl Prop for C07 {
     fn required_labels(&self) -> Vec<&'static str> {
         vec![
             "resp_set_endpoint_id", "resp_get_endpoint_id", "resp_get_endpoint_uuid", "resp_get_mctp_version_support",
-            "resp_get_message_type_support", "resp_get_vendor_defined_message_support", "nonsuccess", "eid_via_process", "types30",
+            "resp_get_message_type_support", "resp_get_vendor_defined_message_support", "nonsuccess", "eid_via_process", "types30", "process_packet_response", "request_with_datagram_or_reserved_bit",
         ]
     }
-    fn enumerate(&self, tier: Tier, shard: usize, nshards: usize, f: &mut dyn FnMut(EncCase)) {
+    fn enumerate(&self, tier: Tier, shard: usize, nshards: usize, f: &mut dyn FnMut(PktCase)) {
         let mut idx = 0usize;
         super::enumer::for_each_enc_case(tier, false, false, false, &mut |env, call| {
             if !call.is_response_encoder() {
@@ -44,15 +48,39 @@ impl Prop for C07 {
             }
             idx += 1;
             if idx % nshards == shard {
-                f(EncCase { env, call });
+                f(PktCase::Enc(EncCase { env, call }));
             }
         });
     }
     fn enumerated_desc(&self, _tier: Tier) -> Option<String> {
         Some("all 6 completion codes x every (assignment, allocation) status pair, x every (endpoint type, ID type, fairness) triple, x 3 UUIDs, x every message-type list length 0..30, x vendor ID field lengths 0..7 x 5 selectors; every selector 0..255; every stored EID 0..255 (through the accessor and through a processed Set Endpoint ID) for the two EID-reporting encoders".into())
     }
-    fn run(&self, case: &EncCase) -> CaseResult {
+    fn run(&self, case: &PktCase) -> CaseResult {
         let mut r = CaseResult::default();
+        let case = match case {
+            PktCase::Enc(c) => c,
+            PktCase::Resp(c) => {
+                // "every control response the library encodes has the request, datagram and
+                // reserved bits clear" - also the ones process_packet generates, whatever
+                // the request's control byte carried
+                r.label("process_packet_response");
+                if c.req.len() > 9 && c.req[9] & 0x60 != 0 {
+                    r.label("request_with_datagram_or_reserved_bit");
+                }
+                let Some(p) = produce_response_opt(c, false) else { return r };
+                if p.len < 13 || p.len > p.buf.len() {
+                    return r;
+                }
+                r.nontrivial = true;
+                if p.buf[9] & 0xE0 != 0 {
+                    r.fail("C07:process_packet_response:ctrl_bits".to_string(), format!("response {} to request {} has request/datagram/reserved bits set in its control byte {:#04x}", hex(&p.buf[..p.len]), hex(&c.req), p.buf[9]));
+                }
+                if p.buf[10] != c.req[10] {
+                    r.fail("C07:process_packet_response:cmd".to_string(), format!("response {} answers command {:#04x} but carries command code {:#04x}", hex(&p.buf[..p.len]), c.req[10], p.buf[10]));
+                }
+                return r;
+            }
+        };
         let kind = case.call.kind();
         let RefEnc::Packet(p) = refmodel::ref_encode(&case.call, case.env.eid_resp) else { return r };
         r.label(kind);
